@@ -70,6 +70,10 @@ package main
 //@   ensures [nothingToDo] svcRo == nil && !old(c.ips.allocated[name] != nil && c.ips.allocated[name].pool != "") ==> result == controllers.SyncStateSuccess && (forall s string :: c.ips.allocated[s] == old(c.ips.allocated[s]))
 //@   assert before UpdateStatus: [writesConverged] arg0 == svc
 //@   exit assert [writeFailureRetried] err != nil ==> result == controllers.SyncStateError
+// the decision to write compares the whole object to be written (status and annotations) with what was received: a
+// change of the pool annotation alone is written too (C02: "the recorded pool annotation names the owning pool")
+//@   assert before DeepEqual#4: [writeDecisionOnWholeObject] (arg0 == toWrite && arg1 == svcRo) || (arg0 == svcRo && arg1 == toWrite)
+//@   assert before DeepEqual#3: [annotationsCompared] (arg0 == svcRo.Annotations && arg1 == svc.Annotations) || (arg0 == svc.Annotations && arg1 == svcRo.Annotations)
 // a Service that held addresses, holds none after converging and whose old addresses still lie in a pool has freed
 // something another Service may be waiting for: every Service is re-processed (C07), whatever else the convergence said
 //@   assert before DeepCopy#2: [releaseAsksResync] len(prevIPs) != 0 && !(c.ips.allocated[name] != nil && c.ips.allocated[name].pool != "") && (exists n string :: (n in c.ips.pools.ByName) && allocator.AllInPool(c.ips.pools.ByName[n], prevIPs)) ==> syncStateRes == controllers.SyncStateReprocessAll
